@@ -5,4 +5,4 @@ id="$1"; wt="$2"; patch="$3"; tier="${4:-quick}"
 git -C "$wt" checkout -q -- . && git -C "$wt" checkout -q --detach "$(git -C /repo rev-parse HEAD)" && git -C "$wt" apply "$patch" || { echo "APPLY-FAILED"; exit 9; }
 out=$(VERIF_REPO="$wt" VERIF_SCRATCH=/var/tmp /verif/run.sh "$id" "$tier" 2>&1); rc=$?
 git -C "$wt" checkout -q -- .
-echo "rc=$rc"; echo "$out" | grep -E "^VIOLATION|^  key=|^KNOWN|^INCONCLUSIVE|^SUMMARY|BUILD-FAILED" | head -12
+echo "rc=$rc"; echo "$out" | grep -E "^VIOLATION|^  key=|^KNOWN|^INCONCLUSIVE|^SUMMARY|BUILD-FAILED" | head -40
